@@ -108,7 +108,17 @@ class FunctionInteractionsUtils(object):
         for fi0 in fi.parsed_body:
             if isinstance(fi0, FunctionInteractions):
                 res += cls.all_store_paths(fi0).items()
-        return OrderedDict(res)
+        store_paths: "OrderedDict[DDSPath, PyHash]" = OrderedDict()
+        for (p, sig) in res:
+            if store_paths.get(p, sig) != sig:
+                # The path would be given the last signature, and every keep of this path would be served that one.
+                raise DDSException(
+                    f"The path {p} is kept more than once in the same evaluation, with different content"
+                    f" (signatures {store_paths[p]} and {sig}). This is not allowed: use different paths.",
+                    DDSErrorCode.OVERLAPPING_PATH,
+                )
+            store_paths[p] = sig
+        return store_paths
 
     @classmethod
     def all_indirect_deps(cls, fis: FunctionInteractions) -> Set[DDSPath]:
